@@ -1061,7 +1061,7 @@ def standin_rebuild_over_existing(tier, seed):
     name = 'rebuild_over_existing'
     PRIORS = ['absent', 'empty', 'text_twice', 'text_plus_junk', 'text_plus_newlines_and_junk', 'non_utf8_longer', 'prefix_half', 'same_length_other_content', 'huge_64k', 'one_byte_longer',
               'one_byte_shorter', 'hard_link_to_longer']
-    SPECIAL = ['read_only_longer', 'directory', 'symlink_to_longer', 'dangling_symlink']
+    SPECIAL = ['read_only_longer', 'directory', 'symlink_to_longer', 'dangling_symlink', 'read_only_directory_with_longer_artifact']
     bound = ('for each of %s: seeded values of the format\'s family (%s per format), (a) built twice in the same directory -- previous value longer -> new, new -> longer, same -> same -- and (b) built over an '
              'artifact path prepared as {%s} (text = what a clean build writes); after an exit-0 build the artifact decodes (independent decoder) to the value of THIS build; '
              '(c) over {%s}: the build fails, or the artifact decodes to the value (seed %s)'
@@ -1155,7 +1155,7 @@ def standin_rebuild_over_existing(tier, seed):
         items, meta = [], []
         for (v, _), src, T in sample:
             spec = dict(read_only_longer=_p_readonly(T + T), directory=_p_directory, symlink_to_longer=_p_symlink(T + b'\n# old tail\n' + T), dangling_symlink=_p_symlink(b'', dangling=True))
-            for k in SPECIAL:
+            for k in SPECIAL[:4]:
                 items.append((src, spec[k]))
                 meta.append((v, k))
         work = tempfile.mkdtemp(prefix='verif_c03r_')
@@ -1169,6 +1169,25 @@ def standin_rebuild_over_existing(tier, seed):
                     except OSError:
                         pass
             shutil.rmtree(work, ignore_errors=True)
+        # ... and a read-only DIRECTORY holding a longer artifact (for a privileged user the directory stays writable: then the strict rule applies through exit 0)
+        for (v, _), src, T in sample[:1]:
+            work = tempfile.mkdtemp(prefix='verif_c03r_')
+            try:
+                with open(os.path.join(work, 'c0000.ucg'), 'w', encoding='utf-8', newline='') as f:
+                    f.write(src)
+                with open(os.path.join(work, 'c0000.' + EXT[fmt]), 'wb') as f:
+                    f.write(T + b'\n' + T)
+                os.chmod(work, 0o555)
+                rc1 = R.run_ucg(['build', 'c0000.ucg'], work, timeout=120)[0]
+                with open(os.path.join(work, 'c0000.' + EXT[fmt]), 'rb') as f:
+                    raw = f.read()
+            finally:
+                os.chmod(work, 0o755)
+                shutil.rmtree(work, ignore_errors=True)
+            items.append((src, None))
+            meta.append((v, 'read_only_directory_with_longer_artifact'))
+            rcs.append(rc1)
+            arts.append(raw)
         for (src, _), (v, k), rc1, raw in zip(items, meta, rcs, arts):
             n_cases += 1
             count[fmt] = n_cases
